@@ -514,8 +514,35 @@ class PrePost(SubCheck):
         return out
 
 
+def refused_check(svg):
+    """an in-place product that is refused (a unit-bearing translation cannot be combined with a numeric one before
+    render()): after render() the same product must be what it is without the refused attempt"""
+    from props import failsafe
+    M = svg.Matrix
+    mat = lambda m: [float(m.a), float(m.b), float(m.c), float(m.d), float(m.e), float(m.f)]
+    ops = {
+        "*= rotate(30,10,20)": lambda m: m.__imul__(M("rotate(30,10,20)")),
+        "@= matrix": lambda m: m.__imatmul__(M(1.5, 0.5, -0.25, 2, 3, -4)),
+        "post_rotate(1,4,-3)": lambda m: m.post_rotate(1.0, 4.0, -3.0),
+        "post_scale(2,3,1,1)": lambda m: m.post_scale(2.0, 3.0, 1.0, 1.0),
+        "post_cat": lambda m: m.post_cat(0.0, 1.0, -1.0, 0.0, 5.0, 6.0),
+        "pre_cat": lambda m: m.pre_cat(0.0, 1.0, -1.0, 0.0, 5.0, 6.0),
+        "pre_rotate(1,4,-3)": lambda m: m.pre_rotate(1.0, 4.0, -3.0),
+        "post_translate(3,4)": lambda m: m.post_translate(3.0, 4.0),
+    }
+    sc = []
+    for src in ("translate(1cm,2cm)", "translate(10%,5%)", "scale(2) translate(1in,0)", "translate(1em,2em)"):
+        for nm, op in ops.items():
+            def follow(m, op=op):
+                m.render(ppi=96, width=200, height=100, font_size=16)
+                op(m)
+                return mat(m)
+            sc.append(dict(name="Matrix(%r) %s" % (src, nm), fresh=(lambda src=src: M(src)), attempt=op, follow={"render, then the same": follow}))
+    return failsafe.Refused(svg, sc)
+
+
 def build(tier, seed, svg):
-    return [Strings(svg, tier), Units(svg, tier), Singles(svg, tier), Pairs(svg, tier), PrePost(svg, tier)]
+    return [Strings(svg, tier), Units(svg, tier), Singles(svg, tier), Pairs(svg, tier), PrePost(svg, tier), refused_check(svg)]
 
 
 def m_units_composed(d):
